@@ -78,6 +78,12 @@ class Cond:
         return self.s
 
 
+class Opaque:
+    """a callable kept abstract: a Lean function parameter"""
+    def __init__(self, name):
+        self.name = name
+
+
 class Closure:
     def __init__(self, fdef, env, cls=None):
         self.fdef, self.env, self.cls = fdef, env, cls
@@ -252,6 +258,15 @@ class Evaluator:
         raise Unsupported(f'truthiness of {type(v).__name__}')
 
     def cond(self, e, env):
+        if isinstance(e, ast.Call) and self.dotted(e.func) == 'isinstance' and len(e.args) == 2:
+            v = self.ev(e.args[0], env)
+            names = [self.dotted(x) for x in (e.args[1].elts if isinstance(e.args[1], ast.Tuple) else [e.args[1]])]
+            if not all(n in ('int', 'float', 'Vector') for n in names):
+                raise Unsupported('isinstance against ' + str(names))
+            is_num, is_vec = isinstance(v, (Num, IntC)), isinstance(v, Vec)
+            if not (is_num or is_vec):
+                raise Unsupported('isinstance of ' + type(v).__name__)
+            return Cond('static', (is_num and ('int' in names or 'float' in names)) or (is_vec and 'Vector' in names))
         if isinstance(e, ast.Compare) and len(e.ops) == 1:
             a, b = self.ev(e.left, env), self.ev(e.comparators[0], env)
             op = e.ops[0]
@@ -343,6 +358,8 @@ class Evaluator:
                 m = self.method(head, tail)
                 if m is not None:
                     return self.apply(m, None, args, kw, env, head)
+            if isinstance(env.get(d), Opaque):
+                return Num('(' + env[d].name + ''.join(' ' + num(a) for a in args) + ')')
             # method on self
             if head == 'self' and '.' not in tail and 'self.__class__' in env:
                 cls = env['self.__class__']
@@ -441,11 +458,23 @@ class Evaluator:
                     self.assign(t, v, env)
                 continue
             if isinstance(s, ast.AugAssign):
+                cur = self.ev(s.target, env)
+                if isinstance(cur, Vec):
+                    name = {ast.Add: '__iadd__', ast.Sub: '__isub__', ast.Mult: '__imul__'}.get(type(s.op))
+                    if name is None:
+                        raise Unsupported('augmented vector operator')
+                    self.assign(s.target, self.call_method('Vector', name, cur, [self.ev(s.value, env)], env), env)
+                    continue
                 fake = ast.BinOp(left=s.target, op=s.op, right=s.value)
                 self.assign(s.target, self.ev(fake, env), env)
                 continue
             if isinstance(s, ast.If):
                 c = self.cond(s.test, env)
+                if c.kind == 'static':
+                    r = self.block(s.body if c.s else s.orelse, env)
+                    if r is not None:
+                        return r
+                    continue
                 e1, e2 = dict(env), dict(env)
                 rest = stmts[i + 1:]
                 r1 = self.block(s.body, e1)
@@ -471,6 +500,8 @@ class Evaluator:
                 return self.merge(c, r1, r2)
             if isinstance(s, ast.Pass):
                 continue
+            if isinstance(s, ast.Raise):
+                raise Unsupported('a reachable raise statement')
             raise Unsupported(f'statement {type(s).__name__}')
         return None
 
@@ -624,6 +655,46 @@ def emit(ev, spec):
     return f'/-- `{src}` -/\ndef {lname} {binders} : {ty} :=\n  {body}\n'
 
 
+def find_self_assign(ev, cls, meth, attr):
+    m = ev.method(cls, meth)
+    for n in ast.walk(m) if m else []:
+        if isinstance(n, (ast.Assign, ast.AnnAssign)):
+            t = n.targets[0] if isinstance(n, ast.Assign) else n.target
+            if isinstance(t, ast.Attribute) and isinstance(t.value, ast.Name) and t.value.id == 'self' and t.attr == attr and n.value:
+                return n.value
+    raise Unsupported(f'{cls}.{meth}: no assignment to self.{attr}')
+
+
+def emit_step(ev):
+    """the ballistic step of the `while` loop of `TrajectoryCalc._integrate`: the statements from the assignment of
+    `velocity_adjusted` to `time += delta_time`, executed on a symbolic state"""
+    f = ev.method('TrajectoryCalc', '_integrate')
+    if f is None:
+        raise Unsupported('TrajectoryCalc._integrate not found')
+    loops = [n for n in f.body if isinstance(n, ast.While)]
+    if len(loops) != 1:
+        raise Unsupported(f'_integrate has {len(loops)} top-level while loops')
+    body = loops[0].body
+    i0 = [i for i, n in enumerate(body) if isinstance(n, ast.Assign) and isinstance(n.targets[0], ast.Name)
+          and n.targets[0].id == 'velocity_adjusted']
+    i1 = [i for i, n in enumerate(body) if isinstance(n, ast.AugAssign) and isinstance(n.target, ast.Name) and n.target.id == 'time']
+    if len(i0) != 1 or len(i1) != 1 or i1[0] < i0[0]:
+        raise Unsupported('the step region of _integrate was not recognised')
+    stmts = body[i0[0]:i1[0] + 1]
+    grav = ev.ev(find_self_assign(ev, 'TrajectoryCalc', '__init__', 'gravity_vector'), {'self._config.cGravityConstant': Num('gravity')})
+    env = {'velocity_vector': vec('s.vel'), 'range_vector': vec('s.pos'), 'time': Num('s.time'), 'wind_vector': vec('wind'),
+           'density_factor': Num('density'), 'mach': Num('mach'), 'self.calc_step': Num('calcStep'), 'self.gravity_vector': grav,
+           'self.drag_by_mach': Opaque('dbm'), 'self.__class__': 'TrajectoryCalc'}
+    r = ev.block(stmts, env)
+    if r is not None:
+        raise Unsupported('return inside the step region')
+    P, V = env['range_vector'], env['velocity_vector']
+    v3 = lambda v: f'⟨{num(v.x)}, {num(v.y)}, {num(v.z)}⟩'   # noqa: E731
+    return ('/-- the ballistic step of `TrajectoryCalc._integrate` (from `velocity_adjusted = …` to `time += delta_time`) -/\n'
+            'def step (calcStep gravity : α) (dbm : α → α) (wind : Model.Vec α) (density mach : α) (s : Model.St α) : Model.StepOut α :=\n'
+            f'  ⟨⟨{v3(P)}, {v3(V)}, {num(env["time"])}⟩, {num(env["drag"])}, {num(env["velocity"])}⟩\n')
+
+
 def generate(repo: Path) -> str:
     repo = Path(repo)
     mods = {k: ast.parse((repo / p).read_text()) for k, p in SOURCES.items()}
@@ -637,13 +708,14 @@ def generate(repo: Path) -> str:
     ev = Evaluator(mods, consts)
     out = ['/- GENERATED by translate/t_funcs.py from the function bodies in py_ballisticcalc/conditions.py,',
            '   trajectory_calc/_trajectory_calc.py, vector/_vector.py — do not edit.  One inlined expression per function. -/',
-           'import BC.Model.Row', 'namespace BC.Gen.Src', 'open BC BC.Gen BC.Model', '',
+           'import BC.Model.Traj', 'namespace BC.Gen.Src', 'open BC BC.Gen BC.Model', '',
            'section',
            'variable {α : Type} [Add α] [Sub α] [Mul α] [Div α] [Neg α] [OfScientific α]',
            '  [LT α] [DecidableLT α] [LE α] [DecidableLE α] [Fn α]', '']
     for spec in SPECS:
         out.append(emit(ev, spec))
-    out += ['end', '', 'def translated : List String := [' + ', '.join(f'"{s[0]}"' for s in SPECS) + ']', '', 'end BC.Gen.Src', '']
+    out.append(emit_step(ev))
+    out += ['end', '', 'def translated : List String := [' + ', '.join(f'"{s[0]}"' for s in SPECS) + ', "step"]', '', 'end BC.Gen.Src', '']
     return '\n'.join(out)
 
 
